@@ -336,7 +336,7 @@ def run(chk):
       isinstance(src[0], ast.AST) else ''
   ok = ok and len(src) == 1 and 'predicates_prefix' in src_text and \
       'parsed_imports' in src_text and ('imported_predicate_file' in src_text or
-                                        "s['file']" in src_text)
+                                        "['file']" in src_text)
   chk.ob('C12-R3', ok, None, "imported names are renamed with the imported file's prefix",
          'uses of an imported predicate are renamed with %s' % (norm(src[0], 60) if src else '?'),
          fi=f.fi)
